@@ -232,8 +232,9 @@ class MarketMaker(Harness):
     title = "real MarketMakerAgent.submit_orders over symbolic books of its accessible markets"
     what_symbolic = "best bids / asks of up to 2 markets (limit prices, or absent), fundamental price, spread"
     nontrivial_event = "both quotes were emitted"
-    bounds = {"quick": "2 markets x (bid present/absent) x (ask present/absent), second market accessible or not", "thorough": "same"}
-    reach = ("nontrivial", "base-from-quotes", "base-from-market-price")
+    bounds = {"quick": "2 markets x (bid present/absent) x (ask present/absent), second market accessible or not; the "
+                       "target market itself not accessible", "thorough": "same"}
+    reach = ("nontrivial", "base-from-quotes", "base-from-market-price", "target-inaccessible")
     agreement_runs = 6
 
     def cases(self, tier):
@@ -241,6 +242,9 @@ class MarketMaker(Harness):
         for pres in itertools.product((False, True), repeat=4):
             for acc2 in (True, False):
                 out.append({"pres": list(pres), "acc2": acc2})
+        # the configured target market is not among the markets the agent can access
+        out.append({"pres": [True, True, True, True], "acc2": True, "target_inaccessible": True})
+        out.append({"pres": [False, False, False, False], "acc2": True, "target_inaccessible": True})
         return out
 
     def run(self, g, case):
@@ -265,6 +269,20 @@ class MarketMaker(Harness):
             asks.append(s)
         a = MarketMakerAgent(agent_id=5, prng=SymRandom(g, "ag"), simulator=sim, name="mm")
         acc = [0, 1] if case["acc2"] else [0]
+        if case.get("target_inaccessible"):
+            acc = [1]
+            g.note("target-inaccessible")
+            try:
+                a.setup({"cashAmount": 1000, "assetVolume": 10, "targetMarket": "M0", "netInterestSpread": 0.02,
+                         "orderTimeLength": 3}, accessible_markets_ids=acc)
+            except ValueError:
+                g.note("inaccessible-target-refused")      # a refused configuration emits nothing
+                return
+            a.net_interest_spread = g.real("spread", 0, 1)
+            for o in a.submit_orders(markets=ms):
+                _wellformed(g, o, a, acc)
+            g.note("inaccessible-target-silent")
+            return
         a.setup({"cashAmount": 1000, "assetVolume": 10, "targetMarket": "M0", "netInterestSpread": 0.02,
                  "orderTimeLength": 3}, accessible_markets_ids=acc)
         spread = g.real("spread", 0, 1)
@@ -305,9 +323,11 @@ class Arbitrage(Harness):
     what_symbolic = "index market price, component market prices (set by real trades), threshold (>= 0), order volume v in [1,100]"
     nontrivial_event = "a hedged basket was emitted"
     bounds = {"quick": "index over 2 or 3 equal-share components; all running / index stopped / a component stopped; polled "
-                       "once, and polled twice in one step with a component trade in between",
+                       "once, and polled twice in one step with a component trade in between; index or one component not "
+                       "accessible to the agent",
               "thorough": "same"}
-    reach = ("nontrivial", "silent-inside-threshold", "index-cheap", "index-rich", "not-running-silent", "second-poll")
+    reach = ("nontrivial", "silent-inside-threshold", "index-cheap", "index-rich", "not-running-silent", "second-poll",
+             "no-access-silent")
     agreement_runs = 6
 
     def cases(self, tier):
@@ -318,6 +338,9 @@ class Arbitrage(Harness):
                     if stop and twice:
                         continue
                     out.append({"n": n, "stop": stop, "twice": twice})
+            # the agent cannot access the index market / one of the components
+            out.append({"n": n, "stop": None, "twice": False, "no_access": "index"})
+            out.append({"n": n, "stop": None, "twice": False, "no_access": "component"})
         return out
 
     def run(self, g, case):
@@ -342,7 +365,9 @@ class Arbitrage(Harness):
         _trade(idx, g.int("pi", 1, 10 ** 6))
         a = ArbitrageAgent(agent_id=9, prng=SymRandom(g, "ag"), simulator=sim, name="arb")
         a.setup({"cashAmount": 1000, "assetVolume": 10, "orderVolume": 2, "orderThresholdPrice": 1.0,
-                 "orderTimeLength": 4}, accessible_markets_ids=list(range(n + 1)))
+                 "orderTimeLength": 4},
+                accessible_markets_ids={None: list(range(n + 1)), "index": list(range(n)),
+                                        "component": list(range(1, n + 1))}[case.get("no_access")])
         thr = g.real("thr", 0, 10 ** 6)
         v = g.int("v", 1, 100)
         a.order_threshold_price = thr
@@ -361,6 +386,13 @@ class Arbitrage(Harness):
     def poll(self, g, a, markets, comps, idx, thr, v, case):
         n = len(comps)
         orders = a.submit_orders(markets=markets)
+        if case.get("no_access"):
+            # no basket can be sent without an order for a market the agent cannot access: the agent must stay silent
+            for o in orders:
+                _wellformed(g, o, a, [m.market_id for m in markets])
+            g.require(orders == [], "C20.arb-partial-basket", "a basket without one of its legs")
+            g.note("no-access-silent")
+            return
         if case["stop"]:
             g.require(orders == [], "C20.arb-orders-while-a-market-is-stopped")
             g.note("not-running-silent")
